@@ -561,8 +561,16 @@ fn compile_to_ir_using_alpha(
 		if let Some(out_dir) = &out_dir
 		{
 			let outputpath = {
+				// Stay inside the output directory, also for a source file
+				// that was given by an absolute path or through `..`.
 				let mut path = out_dir.to_path_buf();
-				path.push(filepath.clone());
+				for component in filepath.components()
+				{
+					if let std::path::Component::Normal(part) = component
+					{
+						path.push(part);
+					}
+				}
 				path.set_extension("pn.ll");
 				path
 			};
